@@ -32,7 +32,7 @@ def scripts(rnd, ntables, types, nmax):
             sc.append(o)
             if i % 97 == 96:
                 sc.append('bwrite %d 0' % rnd.randint(lo, hi))
-        yield sc
+        yield rebased(sc, rnd)
 
 
 def run(tier):
